@@ -84,8 +84,23 @@ def core_beval(b, env):
 
 
 def _sample_env(ctx, pathcond, rng, tries=200):
+    from . import core
+    try:
+        subs = core.equalities_to_substitutions(ctx, pathcond)
+    except Exception:   # noqa
+        subs = []
     for _ in range(tries):
         env = _rand_env(ctx, rng)
+        if subs:
+            # parameters pinned by path-condition equalities take the value the equality dictates
+            try:
+                e2 = dict(env)
+                e2['pi'] = math.pi
+                for gname, vp in subs:
+                    e2[gname] = core._eval_poly(vp, ctx, e2)
+                    env[gname] = e2[gname]
+            except KeyError:
+                pass
         if _env_satisfies(ctx, env, pathcond):
             return env
     # fall back to a solver model of pre & path
@@ -107,6 +122,30 @@ def _sample_env(ctx, pathcond, rng, tries=200):
         env = _rand_env(ctx, rng, env)
         if _env_satisfies(ctx, env, pathcond):
             return env
+    return None
+
+
+def _generic_witness(ctx, ob, pathcond, rng, tries=12):
+    import numpy as np
+    la = np.asarray(ob.lhs, dtype=object).reshape(-1)
+    ra = np.asarray(ob.rhs, dtype=object).reshape(-1)
+    for _ in range(tries):
+        env = _sample_env(ctx, pathcond, rng, tries=50)
+        if env is None:
+            return None
+        try:
+            full = ctx.full_env(env)
+            worst, ref = 0.0, 1e-9
+            for a, b in zip(la, ra):
+                va, vb = _num(a, full), _num(b, full)
+                if va is None or vb is None or isinstance(va, str) or isinstance(vb, str):
+                    continue
+                worst = max(worst, abs(va - vb))
+                ref = max(ref, abs(va), abs(vb))
+            if worst > 1e-5 * ref:
+                return env
+        except Exception:   # noqa
+            continue
     return None
 
 
@@ -194,6 +233,10 @@ def process_config(job):
                 continue
             full0 = ctx.full_env(env0)
             tv2_vals = {}
+            try:
+                path_subs = core.equalities_to_substitutions(ctx, pathcond)
+            except NotEncodable:
+                path_subs = []
             for ob in obligations:
                 rec = {'label': ob.label, 'kind': ob.kind, 'path': res['paths']}
                 try:
@@ -208,6 +251,9 @@ def process_config(job):
                                 break
                             if an:
                                 continue
+                            if path_subs:
+                                a = core.subs_sx(symnp._sx(a), ctx, path_subs)
+                                b = core.subs_sx(symnp._sx(b), ctx, path_subs)
                             sym_pairs.append((a, b))
                         if structural is not None:
                             rec.update(status='sat', structural='NaN pattern differs at flat index %d' % structural)
@@ -248,7 +294,13 @@ def process_config(job):
                     cex_env = None
                 if rec['status'] == 'sat':
                     # complete the counterexample with values for everything the model left open
-                    env = _rand_env(ctx, rng, cex_env or {})
+                    env = None
+                    if ob.kind == 'eq' and rec.get('structural') is None:
+                        # a failed identity fails at generic points: prefer a random witness (the solver's model tends to
+                        # sit on coincidence sets such as Qx == Qy == 1) and confirm it numerically on the symbolic terms
+                        env = _generic_witness(ctx, ob, pathcond, rng)
+                    if env is None:
+                        env = _rand_env(ctx, rng, cex_env or {})
                     if not _env_satisfies(ctx, env, pathcond):
                         # model point may sit on a boundary in float; accept it anyway, replay decides
                         pass
@@ -455,11 +507,15 @@ def main(prop, tier, seed, only=None, jobs=None):
             continue
         if kind == 'tv2':
             for label, sv in item['vals'].items():
+                if label.startswith('linear: complex-linear'):
+                    continue     # laid out differently on the two sides; the kernel itself is compared
                 rec = recs.get(label)
                 if rec is None:
                     if out['exception'] is not None:
                         continue    # real code raised earlier on; the exception obligation handles it
                     ok, why = False, 'label missing in concrete run'
+                elif rec.get('lhs') is None:
+                    continue    # the concrete side recorded no value for this label (nothing to compare)
                 else:
                     ok, why = _close(sv, rec['lhs'])
                 tv2_points += 1
